@@ -52,6 +52,10 @@ def gen_and_run(tier, seed):
     for i, c in enumerate(fc):
         if i % 9 == 0:
             advs.append(dict(c, adv=["always_equal", "falsy"][(i // 9) % 2]))
+    # wide families (three children under one parent) on value-comparing classes
+    b4q = mc.exhaustive(4, ["mixin", "light"], False, rng, rich=False)
+    rng.shuffle(b4q)
+    advs += [dict(c, adv=["always_equal", "container", "ordering"][i % 3]) for i, c in enumerate(b4q[:3000])]
     fobs = mc.run_impl(fc + pers + advs, PROP)
     cases = base + fc + pers + advs
     obs = obs0 + fobs
